@@ -317,6 +317,14 @@ RunResult run_in_child(const Plan* plan, const std::string& profile, const std::
 			r.sig = WTERMSIG(st);
 			r.stderr_tail = read_tail(ep, 6000);
 			if (r.sig == SIGALRM) { r.timed_out = true; r.oracle = prof + ".hang-wall"; r.site = r.op; r.detail = "wall-clock backstop hit inside step " + std::to_string(r.step) + " (" + r.op + ")"; }
+			else if (r.sig == SIGABRT && r.stderr_tail.find("/debug/") != std::string::npos && r.stderr_tail.find("Error: ") != std::string::npos) {
+				// libstdc++ debug mode (dbg flavour): a container or iterator precondition was violated
+				size_t a = r.stderr_tail.find("Error: "), b = r.stderr_tail.find('.', a); std::string what = r.stderr_tail.substr(a + 7, (b == std::string::npos ? a + 120 : b) - a - 7);
+				for (char& ch : what) if (ch == '\n') ch = ' ';
+				while (what.find("  ") != std::string::npos) what.erase(what.find("  "), 1);
+				r.oracle = prof + ".stl-precondition"; r.site = r.op + ":" + what.substr(0, 90);
+				r.detail = "libstdc++ debug mode aborted inside step " + std::to_string(r.step) + " (" + r.op + "): " + what + "\n" + r.stderr_tail;
+			}
 			else { r.oracle = prof + ".crash"; r.site = r.op + ":" + sig_name(r.sig); r.detail = std::string(sig_name(r.sig)) + " inside step " + std::to_string(r.step) + " (" + r.op + ")\n" + r.stderr_tail; }
 			r.status = 2;
 		} else {
